@@ -116,6 +116,12 @@ class Built:
                 self.problem.minimize(e)
         self.con_objs = []
         for t, sense, rhs in cons:
+            if t[0] == "matcons":
+                # element-wise constraint on a matrix(-like) object: a list of constraints
+                m = self.mref(t[1]) if t[2] == "var" else self.mref(t[1]) * 2 - 1
+                cs = (m <= rhs) if sense == "<=" else (m >= rhs) if sense == ">=" else m.eq(rhs)
+                self.con_objs.extend(cs)
+                continue
             e = self.term(t)
             c = (e <= rhs) if sense == "<=" else (e >= rhs) if sense == ">=" else e.eq(rhs)
             self.con_objs.append(c)
@@ -161,6 +167,8 @@ class Built:
             o = self.mref(r[1]).T
         elif k == "sub":
             o = self.mref(r[1])[slice(r[2], r[3]), slice(r[4], r[5])]
+        elif k == "sub2":
+            o = self.mref(r[1])[slice(r[2], r[3], r[4]), slice(r[5], r[6], r[7])]
         else:
             raise ValueError(k)
         self.cache[r] = o
@@ -222,6 +230,13 @@ class Built:
             return (m * 2 + 1).sum()
         if k == "frob":
             return M.FrobeniusNorm(self.mref(t[1]))
+        if k == "mprod":
+            m = self.mref(t[1])
+            return (m * m).sum()
+        if k == "mtracefn":
+            return M.trace(self.mref(t[1]))
+        if k == "mdiagfn":
+            return M.diag(self.mref(t[1])).sum()
         if k == "trace":
             return self.mref(t[1]).trace()
         if k == "scalar":
@@ -459,6 +474,136 @@ def names_cover():
     return out
 
 
+# ---- matrix view kinds x the symmetric flag: every 2-D slice form of general and symmetric matrices (and of their
+# transposes, and transposes of the slices) used through every matrix-level node; what a view mentions is exactly the
+# Variable objects in its grid, whatever flags the view carries.
+
+
+def view_shape(shape, chain):
+    r, c = shape
+    for st in chain:
+        if st[0] == "T":
+            r, c = c, r
+        else:
+            r, c = len(range(r)[slice(*st[1:4])]), len(range(c)[slice(*st[4:7])])
+    return r, c
+
+
+def build_view(base, chain):
+    m = ["mat", base]
+    for st in chain:
+        m = ["T", m] if st[0] == "T" else ["sub2", m, *st[1:7]]
+    return m
+
+
+SLICE_FORMS = [  # (row slice, col slice) on an n x n grid with n >= 4: principal / off-diagonal blocks, steps, directions
+    ((0, 2, None), (0, 2, None)), ((1, 3, None), (1, 3, None)), ((0, 2, None), (2, 4, None)), ((2, 4, None), (0, 2, None)),
+    ((None, None, 2), (None, None, 2)), ((0, 4, 2), (0, 4, 3)), ((0, 4, 3), (0, 4, 2)), ((None, None, -1), (None, None, None)),
+    ((None, None, None), (None, None, -1)), ((None, None, -1), (None, None, -1)), ((None, None, None), (None, None, 2)),
+    ((None, None, 2), (None, None, None)), ((1, 2, None), (None, None, None)), ((None, None, None), (2, 3, None)),
+    ((None, None, None), (None, None, None)), ((0, 3, None), (1, 4, None)), ((3, None, -2), (3, None, -2)), ((0, 4, 2), (1, 4, 2)),
+]
+
+
+def matrix_terms(view, shape, which):
+    """objective terms / constraints that mention a matrix view through one matrix-level node"""
+    r, c = shape
+    if which == "msum":
+        return [["msum", view]], []
+    if which == "frob":
+        return [["frob", view]], []
+    if which == "mesum":
+        return [["mesum", view]], []
+    if which == "mprod":
+        return [["mprod", view]], []
+    if which == "matcons":
+        return [["const", 1.0]], [[["matcons", view, "var"], "<=", 2.5]]
+    if which == "matcons-expr":
+        return [["const", 1.0]], [[["matcons", view, "expr"], ">=", 0]]
+    if which == "cons-msum":
+        return [["const", 0.0]], [[["msum", view], "<=", 1.0], [["frob", view], "<=", 4.0]]
+    if which == "trace" and r == c:
+        return [["trace", view], ["mtracefn", view]], []
+    if which == "diag" and r == c:
+        return [["vsum", ["diag", view]], ["mdiagfn", view]], []
+    if which == "rowcol":
+        return [["vsum", ["row", view, r - 1]]], [[["lc", ["col", view, 0]], "<=", 1.0]]
+    return [["msum", view]], []
+
+
+MATRIX_NODES = ["msum", "frob", "mesum", "mprod", "matcons", "matcons-expr", "cons-msum", "trace", "diag", "rowcol"]
+
+
+def matview_cover():
+    out = []
+    for sym in (True, False):
+        for (rs, cs) in SLICE_FORMS:
+            for pre, post in ((False, False), (True, False), (False, True)):
+                chain = ([("T",)] if pre else []) + [("sub",) + rs + cs] + ([("T",)] if post else [])
+                shape = view_shape((4, 4), chain)
+                if 0 in shape:
+                    continue
+                view = build_view("S" if sym else "G", chain)
+                for which in MATRIX_NODES:
+                    obj, cons = matrix_terms(view, shape, which)
+                    out.append({"kind": "matview", "decls": [["mat", "S" if sym else "G", 4, 4, sym, 0.0 if sym else None, None]],
+                                "objective": obj, "constraints": cons})
+    for (rs, cs) in SLICE_FORMS[:12]:
+        chain = [("sub",) + rs + cs]
+        shape = view_shape((4, 5), chain)
+        if 0 in shape:
+            continue
+        view = build_view("R", chain)
+        for which in ("msum", "frob", "matcons", "rowcol"):
+            obj, cons = matrix_terms(view, shape, which)
+            out.append({"kind": "matview", "decls": [["mat", "R", 4, 5, False, None, 1.0]], "objective": obj, "constraints": cons})
+    return out
+
+
+def gen_matview_spec(rng):
+    sym = rng.random() < 0.55
+    n = rng.randint(2, 5)
+    shape0 = (n, n) if sym else (rng.randint(1, 5), rng.randint(1, 5))
+    name = rng.choice(["S", "M", "w2", "w10", "a1b", "k["])
+    decls = [["mat", name, shape0[0], shape0[1], sym, *rand_bounds(rng)]]
+    views = []
+    for _ in range(rng.randint(1, 3)):
+        for _try in range(30):
+            chain = []
+            for _k in range(rng.randint(1, 3)):
+                if rng.random() < 0.35:
+                    chain.append(("T",))
+                else:
+                    r_, c_ = view_shape(shape0, chain)
+
+                    def sl(m):
+                        if rng.random() < 0.25:
+                            return (None, None, rng.choice([None, -1, 2, -2]))
+                        a = rng.choice([None] + list(range(-m, m)))
+                        b = rng.choice([None] + list(range(-m, m + 1)))
+                        return (a, b, rng.choice([None, None, 1, 2, 3, -1, -2]))
+                    rs = sl(r_)
+                    cs = rs if rng.random() < 0.3 else sl(c_)
+                    if rng.random() < 0.2 and r_ == c_:
+                        cs = (rs[0], rs[1], rng.choice([None, 1, 2, 3, -1]))      # same span, other step
+                    chain.append(("sub",) + rs + cs)
+            shape = view_shape(shape0, chain)
+            if 0 not in shape:
+                views.append((build_view(name, chain), shape))
+                break
+    if not views:
+        views = [(["mat", name], shape0)]
+    obj, cons = [], []
+    for view, shape in views:
+        o, c = matrix_terms(view, shape, rng.choice(MATRIX_NODES))
+        if rng.random() < 0.5 or not obj:
+            obj += o
+            cons += c
+        else:
+            cons += [[t, rng.choice(["<=", ">="]), 1.0] for t in o if t[0] != "const"] + c
+    return {"kind": "matview", "decls": decls, "objective": obj, "constraints": cons, "maximize": rng.random() < 0.3}
+
+
 # ---- label collisions: distinct views that carry the same name and length but hold different elements.
 # A slice view is named "{name}[{start or 0}:{stop or size}]" (step and direction are not part of the name), a
 # partial row "A[i,:]", a partial column "A[:,j]".  Identity, not the label, must decide "same source".
@@ -572,9 +717,12 @@ def collision_cover():
 
 
 def gen_spec(rng, force=None):
-    kind = force or rng.choice(["shortcut", "shortcut", "nearmiss", "general", "general", "general", "collision", "names", "names"])
+    kind = force or rng.choice(["shortcut", "shortcut", "nearmiss", "general", "general", "general", "collision", "names", "names",
+                                "matview", "matview"])
     if kind == "collision":
         return gen_collision_spec(rng)
+    if kind == "matview":
+        return gen_matview_spec(rng)
     if kind == "names":
         return gen_names_spec(rng)
     n = rng.randint(1, 12)
@@ -772,10 +920,12 @@ def run(ctx) -> core.Report:
                            "constants only) + label-collision family (distinct views with equal name and length, different elements, "
                            "inside the single-vector shortcut) + name-grammar family (digit runs of different lengths, leading zeros, "
                            "mid-name digits, prefixes, brackets in the BASE names of scalars, vectors and matrices that all occur in one "
-                           "problem) + seeded random problem specs; each built in several construction orders in-process and "
+                           "problem) + matrix-view family (every 2-D slice form of symmetric and general matrices, of their transposes and "
+                           "transposed afterwards, through sum / Frobenius norm / element-wise ops / trace / diag / rows / columns / matrix "
+                           "constraints) + seeded random problem specs; each built in several construction orders in-process and "
                            "under several PYTHONHASHSEEDs; non-trivial = distinct specs with at least two variables")
     n_rand = 6000 if thorough else 700
-    specs = [dict(s) for s in FIXED_SPECS] + collision_cover() + names_cover() + [gen_spec(rng) for _ in range(n_rand)]
+    specs = [dict(s) for s in FIXED_SPECS] + collision_cover() + names_cover() + matview_cover() + [gen_spec(rng) for _ in range(n_rand)]
     orders = [0, 1, 2, 3] if not thorough else [0, 1, 2, 3, 4, 5]
     hashseeds = [0, 1, 2] if not thorough else [0, 1, 2, 3, 4, 5, 6, 7]
 
